@@ -704,3 +704,27 @@ package gateway
 //@         h.snOut[s0].(*snPkts1.Regack).ReturnCode == 0 && k == box(uint16, h.snOut[s0].(*snPkts1.Regack).TopicID)) ||
 //@      (istype(pkt, *snPkts1.Register) && old(state(h)) == 2 && len(h.pktBuffer) == old(len(h.pktBuffer)) + 1 && istype(h.pktBuffer[old(len(h.pktBuffer))], *snPkts1.Regack) &&
 //@         h.pktBuffer[old(len(h.pktBuffer))].(*snPkts1.Regack).ReturnCode == 0 && k == box(uint16, h.pktBuffer[old(len(h.pktBuffer))].(*snPkts1.Regack).TopicID)))
+
+// ---- C13: how a session ends (safety core: what is closed, who is told, who is waited for) ----
+// run is executed symbolically with its set-up calls abstracted (`opaquecalls`); connClosed / waited are ghost
+// facts recorded by the models of net.Conn.Close and errgroup.Group.Wait.
+//@ func (*handler1).run
+//@   opaquecalls
+//@   requires [C13] h: h != nil && h.cfg != nil && h.state != nil && state(h) == 0 && bufWF(h)
+//@   assigns *
+//@   at NewConnWithContext.1 before let broker = arg(1)
+//@   at Go.0 before let session = arg(0)
+//@   ensures [C13] broker_connection_closed: bound(broker) ==> connClosed(broker)
+//@   ensures [C13] session_goroutines_waited_for: bound(session) ==> waited(session)
+
+// The goroutine that ends the client side of the session: one DISCONNECT exactly when the client is active or awake
+// (a client that disconnected itself is already in the disconnected state: handleMqttSn, plain_disconnect_relayed).
+//@ func (*handler1).run$1
+//@   requires [C13] h: h != nil && h.state != nil && state(h) <= 3 && bufWF(h) && snCancel != nil && (state(h) == 1 || state(h) == 3 ==> h.snConn != nil)
+//@   assigns *
+//@   let s0 = old(h.snOutN)
+//@   ensures [C13] disconnect_when_active_or_awake: (old(state(h)) == 1 || old(state(h)) == 3) ==> (h.snOutN == s0 || h.snOutN == s0 + 1) &&
+//@      (h.snOutN == s0 + 1 ==> istype(h.snOut[s0], *snPkts1.Disconnect) && h.snOut[s0].(*snPkts1.Disconnect).Duration == 0)
+//@   ensures [C13] no_disconnect_otherwise: !(old(state(h)) == 1 || old(state(h)) == 3) ==> h.snOutN == s0 && sameSlice(h.pktBuffer, old(h.pktBuffer))
+//@   ensures [C13] client_connection_released: calls(snCancel) == old(calls(snCancel)) + 1
+
